@@ -502,7 +502,11 @@ def lean_ty(t):
         return "Model.Dec"
     if t == "Ordering":
         return "Ordering"
+    if t == "str":
+        return "(List Nat)"
     if isinstance(t, tuple) and t[0] == "Result":
+        if len(t) > 2 and t[2] == "ParseDecimalError":
+            return f"(Except Model.ParseErr {lean_ty(t[1])})"
         et = t[2] if len(t) > 2 and t[2] in ("DecimalError", "TryFromDecimalError") else "DecimalError"
         return f"(Except Rt.{et} {lean_ty(t[1])})"
     if isinstance(t, tuple) and t[0] == "Sum":
@@ -818,6 +822,12 @@ class Emit:
             return ls, f"({x}).{e[2] + 1}"
         if k == "try":
             # `e?` in a function returning Option: early exit with None, written as a flat `let some v := … | pure none`
+            fr = self.decl_ret if hasattr(self, "decl_ret") else self.ret
+            if isinstance(fr, tuple) and fr[0] == "Result":
+                # `e?` on a Result whose error type is the function's: the error is passed on unchanged
+                ls, x = self.ex(e[1], None)
+                v, w = self.fresh(), self.fresh()
+                return ls + [f"let {w} := {x}", f"let .ok {v} := {w} | pure (Rt.errOf {w})"], v
             if not (isinstance(self.ret, tuple) and self.ret[0] == "Option"):
                 raise Unsupported("`?` in a function that does not return Option")
             ls, x = self.ex(e[1], ("Option", hint))
@@ -1005,6 +1015,9 @@ class Emit:
             return ls, f"(Int.sign ({xr}))"
         if m == "leading_zeros" and isinstance(t, str) and t in INT_TYPES and not signed(t):
             return ls, f"(leadingZeros {bits(t)} ({xr}))"
+        if m == "pow" and isinstance(t, str) and t in INT_TYPES and signed(t):
+            v = self.fresh()
+            return ls + [f"let {v} ← {self.plain(t, f'({xr}) ^ ({xs[0]})')}"], v
         if m == "pow" and isinstance(t, str) and t in INT_TYPES and not signed(t):
             v = self.fresh()
             return ls + [f"let {v} ← {self.plain(t, f'(({xr} : Nat) : Int) ^ ({xs[0]})')}"], v
@@ -1092,6 +1105,9 @@ class Emit:
             return ls, f"(Except.ok {x})"
         if n == "Err":
             a = args[0]
+            if a[0] == "path" and len(a[1]) > 1 and a[1][0] == "ParseDecimalError":
+                nm = {"Empty": "empty", "Invalid": "invalid", "FracDigitLimitExceeded": "fracLimit", "InternalOverflow": "overflow"}[a[1][-1]]
+                return [], f"(Except.error Model.ParseErr.{nm})"
             if a[0] == "path" and a[1][-1] in ERR_NAMES:
                 et = a[1][0] if len(a[1]) > 1 and a[1][0] in ("DecimalError", "TryFromDecimalError") else "DecimalError"
                 return [], f"(Except.error Rt.{et}.{ERR_NAMES[a[1][-1]]})"
@@ -1238,7 +1254,11 @@ class Emit:
                 ls, x = self.ex(rhs, t)
             else:
                 ls, x = self.ex(("bin", op[:-1], lhs, rhs), t)
-            out = "".join(f"{pad}{l}\n" for l in ls) + f"{pad}let {name} := {x}\n"
+            try:
+                tyann = f" : {lean_ty(t)}"
+            except Unsupported:
+                tyann = ""
+            out = "".join(f"{pad}{l}\n" for l in ls) + f"{pad}let {name}{tyann} := {x}\n"
             return out + self.stmts_term(rest, tail, ind, k)
         if kind == "expr":
             e = s[1]
@@ -1359,6 +1379,13 @@ class Emit:
             return list(b[1]) + ([("expr", b[2])] if b[2] is not None else [])
         return [("expr", b)]
 
+    def has_return_deep(self, x):
+        if isinstance(x, tuple) and len(x) >= 1 and x[0] == "return":
+            return True
+        if isinstance(x, (tuple, list)):
+            return any(self.has_return_deep(y) for y in x)
+        return False
+
     @staticmethod
     def diverges(blk):
         last = blk[2] if blk[2] is not None else (blk[1][-1][1] if blk[1] and blk[1][-1][0] == "expr" else None)
@@ -1372,6 +1399,11 @@ class Emit:
         _, c, th, el = e
         lc, xc = self.cond(c)
         pre = "".join(f"{pad}{l}\n" for l in lc)
+        if el is None and not self.has_return(th) and not self.diverges(th) and self.has_return_deep(th):
+            # a `return` somewhere inside the branch: the statements after the `if` are continued in both branches
+            thn = self.stmts_term(self.as_stmts(th) + rest, tail, ind + 1, k)
+            els = self.stmts_term(rest, tail, ind + 1, k)
+            return pre + f"{pad}if {xc} then\n{thn}{pad}else\n{els}"
         if (self.has_return(th) or self.diverges(th)) and el is None:
             # `if c { …; return x; }` followed by the rest
             thn = self.stmts_term(list(th[1]), th[2], ind + 1, None)
@@ -1526,7 +1558,7 @@ class Emit:
 
 # ----------------------------------------------------------------------------- driver
 GROUP_IMPORTS = {"KPow": ["Fpdec.Gen.Consts"], "KDivRounded": ["Fpdec.Gen.KRound", "Fpdec.Gen.KPow", "Fpdec.Model.Core"],
-                 "KDecDiv": ["Fpdec.Gen.KDivRounded"], "KDecMul": ["Fpdec.Gen.KDivRounded", "Fpdec.Model.Decimal"], "KNorm": [], "KIntoFloat": ["Fpdec.Gen.Consts", "Fpdec.Model.Decimal"], "KIntOps": ["Fpdec.Gen.KDecDiv", "Fpdec.Gen.KNorm", "Fpdec.Gen.Consts", "Fpdec.Model.Decimal"], "KForward": ["Fpdec.Gen.KAddSub", "Fpdec.Gen.KDecOps"], "KIntConv": ["Fpdec.Gen.KPow", "Fpdec.Model.Decimal"], "KCmp": ["Fpdec.Gen.KPow", "Fpdec.Model.Decimal"], "KAddSub": ["Fpdec.Gen.KPow", "Fpdec.Model.Decimal"], "KDecUnops": ["Fpdec.Gen.KUnops", "Fpdec.Gen.KPow", "Fpdec.Model.Decimal"], "KDecOps": ["Fpdec.Gen.KDecDiv", "Fpdec.Gen.KDecMul", "Fpdec.Gen.KNorm", "Fpdec.Gen.Consts", "Fpdec.Model.Decimal"],
+                 "KDecDiv": ["Fpdec.Gen.KDivRounded"], "KDecMul": ["Fpdec.Gen.KDivRounded", "Fpdec.Model.Decimal"], "KNorm": [], "KFromStr": ["Fpdec.Gen.KPow", "Fpdec.Gen.Consts", "Fpdec.Model.Parser"], "KIntoFloat": ["Fpdec.Gen.Consts", "Fpdec.Model.Decimal"], "KIntOps": ["Fpdec.Gen.KDecDiv", "Fpdec.Gen.KNorm", "Fpdec.Gen.Consts", "Fpdec.Model.Decimal"], "KForward": ["Fpdec.Gen.KAddSub", "Fpdec.Gen.KDecOps"], "KIntConv": ["Fpdec.Gen.KPow", "Fpdec.Model.Decimal"], "KCmp": ["Fpdec.Gen.KPow", "Fpdec.Model.Decimal"], "KAddSub": ["Fpdec.Gen.KPow", "Fpdec.Model.Decimal"], "KDecUnops": ["Fpdec.Gen.KUnops", "Fpdec.Gen.KPow", "Fpdec.Model.Decimal"], "KDecOps": ["Fpdec.Gen.KDecDiv", "Fpdec.Gen.KDecMul", "Fpdec.Gen.KNorm", "Fpdec.Gen.Consts", "Fpdec.Model.Decimal"],
                  "KDecRound": ["Fpdec.Gen.KDivRounded", "Fpdec.Model.Decimal"],
                  "KFloat": ["Fpdec.Gen.KNorm", "Fpdec.Gen.Consts", "Fpdec.Model.Core", "Fpdec.Model.Decimal"], "KRem": ["Fpdec.Gen.KPow"], "KDecRem": ["Fpdec.Gen.KRem", "Fpdec.Model.Decimal"],
                  "KWideDiv": ["Fpdec.Gen.KWide", "Fpdec.Gen.KPow", "Fpdec.Gen.Consts", "Fpdec.Model.Core"]}
@@ -1638,6 +1670,19 @@ KERNELS = [
       "self_consts": {"FRACTION_BITS": ("u32", 23), "EXP_BIAS": ("i32", 127), "BITS": ("u32", 32), "__from_bits_width__": ("u32", 32)}}),
     ("KIntoFloat", "src/into_float.rs", "from_decimal", "u64",
      {"as": "f64_from_decimal", "ret": "u64", "self_consts": {"FRACTION_BITS": ("u32", 52), "EXP_BIAS": ("i32", 1023), "BITS": ("u32", 64)}}),
+    ("KFromStr", "src/from_str.rs", "from_str", "Decimal", {"as": "decimal_from_str", "err": "ParseDecimalError",
+                                                             "ret": ("Result", "Decimal", "ParseDecimalError")}),
+    ("KFromStr", "fpdec-macros/src/lib.rs", "Dec", None, {"as": "dec_fold", "err": "ParseDecimalError", "rewrite": [
+        # the proc macro seen as a function of the literal text (after `TokenStream::to_string` and the sign-blank fix-up):
+        # a panic is "does not compile" = Err, the emitted `Decimal::new_raw(#coeff, #n_frac_digits)` is the Ok value
+        (r"pub fn Dec\(input: TokenStream\) -> TokenStream \{", "pub fn Dec(src: &str) -> Result<(i128, u8), ParseDecimalError> {"),
+        (r"let mut src = input\.to_string\(\);", ""),
+        (r"if src\.starts_with\(\"- \"\) \|\| src\.starts_with\(\"\+ \"\) \{\s*src\.remove\(1\);\s*\}", ""),
+        (r"Err\(e\) => panic!\(\"\{\}\", e\),", "Err(e) => Err(e),"),
+        (r"panic!\(\"\{\}\", (ParseDecimalError::\w+)\);?", r"return Err(\1);"),
+        (r"None => return Err\((ParseDecimalError::\w+)\);,", r"None => { return Err(\1); }"),
+        (r"quote!\(\s*Decimal::new_raw\(#coeff, #n_frac_digits\)\s*\)\s*\.into\(\)", "Ok((coeff, n_frac_digits))"),
+    ]}),
     ("KForward", "src/binops/mod.rs", "$method", "Decimal",
      {"as": "ref_add_val", "macro": ("forward_ref_binop", 0, None, {"$imp": "Add", "$method": "add"}), "occ": 0, "ret": "Decimal"}),
     ("KForward", "src/binops/mod.rs", "$method", "Decimal",
@@ -1674,6 +1719,7 @@ EXTERNAL = {
     "i256_div_mod_floor": ([("x1", "i128"), ("x2", "i128"), ("y", "i128")], ("Option", ("tuple", ["i128", "i128"])),
                            "Model.i256DivModFloor prof", True),
     "i128_magnitude": ([("i", "i128")], "u8", "Model.i128Magnitude", False),
+    "str_to_dec": ([("lit", "str")], ("Result", ("tuple", ["i128", "isize"]), "ParseDecimalError"), "Model.strToDec prof", True),
     "u256_idiv_u128_special": ([("xh", "u128"), ("xl", "u128"), ("y", "u128")], ("tuple", ["u128", "u128", "u128"]),
                                "Model.u256IdivU128Special prof", True),
 }
@@ -1729,6 +1775,10 @@ def translate(repo):
             if f not in srcs:
                 srcs[f] = (repo / f).read_text()
             text = srcs[f]
+            for pat_, rep_ in opts.get("rewrite", []):
+                text, n_sub = re.subn(pat_, rep_, text, flags=re.S)
+                if n_sub == 0:
+                    raise SyntaxError(f"source rewrite did not apply: {pat_[:40]}")
             if "macro" in opts:
                 mname, marm, minv, mextra = opts["macro"]
                 text = macro_expand(text, mname, marm, minv, mextra)
